@@ -132,8 +132,11 @@ func payloadCase(c *Ctx, fam *report.Family, famName string, s *PkgSpec, format 
 		if a, err := c.D.Ask(wire.PlanReq(cfg, s.Raw, fsoracle.Build(s.Raw, s.NoGlob))); err == nil {
 			mcs, merr, perr := wire.ParseContents(a)
 			if perr == nil && showPlan(mcs, merr) != showPlan(plan, "") {
-				c.Rep.Disagree(report.Disagreement{Family: famName, What: "the entries the configured contents denote (model of files.PrepareForPackager) vs the entries nfpm planned for " + format,
-					Input: s.Input(), Model: showPlan(mcs, merr), Impl: showPlan(plan, "")})
+				in := s.Input()
+				in["format"] = format
+				c.Rep.Find(report.Finding{Property: c.Prop, Family: famName, Shape: format + ":planned-entries-differ-from-what-the-contents-denote",
+					What:  "the entries nfpm planned differ from the entries the configured contents denote (model of files.PrepareForPackager): denoted " + showPlan(mcs, merr) + " :: planned " + showPlan(plan, ""),
+					Input: in})
 			}
 		}
 	}
